@@ -47,6 +47,7 @@ func init() {
 	reg1("C20Log", SetupC20Log, HarnessC20Log)
 	reg1("C15Panic", SetupC15Panic, HarnessC15Panic)
 	reg1("C15Redact", SetupC15Redact, HarnessC15Redact)
+	reg1("C15Txn", SetupC15Txn, HarnessC15Txn)
 	reg1("C16Alloc", SetupC16Alloc, HarnessC16Alloc)
 	reg1("C09Host", SetupC09Host, HarnessC09Host)
 	reg0("C10Round", HarnessC10Round)
